@@ -1299,7 +1299,7 @@ char* string_print_formatted (char *format_str, int argc, svalue_t * argv) {
                         ((format_str[fpos] != '\n') && (format_str[fpos] != '\0')) ||
                         ((finfo & INFO_ARRAY) && (nelemno < (argv + cur_arg)->u.arr->size))
                         ) ||
-                        carg->u.string[slen - 1] != '\n'
+                        slen == 0 || carg->u.string[slen - 1] != '\n'
                       );
                     }
                 }
